@@ -40,7 +40,13 @@ struct Walk<'a> {
 
 /// The token table with the three names stretched to `l` repetitions (l = 1: the table above).
 fn tokens(l: usize) -> Vec<Vec<u8>> {
-    let a = b"a".repeat(l);
+    tokens_of(b"a", l)
+}
+
+/// `unit` = the byte(s) the first two names are made of; a lone 0xE9 gives names that are not UTF-8 (the reader
+/// compares names as bytes; only the error payloads decode them)
+fn tokens_of(unit: &[u8], l: usize) -> Vec<Vec<u8>> {
+    let a = unit.repeat(l);
     let x = b"\xD1\x85".repeat(l);
     let cat = |parts: &[&[u8]]| parts.concat();
     vec![
